@@ -28,6 +28,7 @@ def m_localtime(it, a, k):
 
 
 class LocalTime:
+    _pyvc_symbolic = True
     def __init__(self, v):
         self.v = v
 
@@ -36,7 +37,7 @@ def m_timegm(it, a, k):
     v = a[0]
     if isinstance(v, LocalTime):
         return v.v
-    return it.native_call(calendar.timegm, a, k)
+    return it.raw_native(calendar.timegm, a, k)
 
 
 def install(it):
@@ -49,3 +50,419 @@ def install(it):
     from . import contract
 
     contract.install_vocabulary(it)
+    install_aw(it)
+    install_vol(it)
+    install_spec_prims(it)
+
+
+# =========================================================================== AwesomeVersion (T-aw)
+from .core import BOOL, INT, STR, ExcVal, PyRaise, lift  # noqa: E402
+from .laws import lawbook, py_strip  # noqa: E402
+
+aw_string = z3.Function("aw_string", STR, STR)  # AwesomeVersion(s).string (prefix v stripped)
+aw_known = z3.Function("aw_known", STR, BOOL)  # strategy != UNKNOWN
+aw_gt = z3.Function("aw_gt", STR, STR, BOOL)  # _compare_versions(a, b)
+aw_simple3 = z3.Function("aw_simple3", STR, BOOL)  # digits(.digits){0,2}
+aw_sec = z3.Function("aw_sec", STR, INT, INT)  # section(i), i in 0..2
+
+
+class AwVer:
+    _pyvc_symbolic = True
+    """AwesomeVersion(s) for a symbolic string s (already stripped)."""
+
+    def __init__(self, term):
+        self.term = term
+
+
+def _aw_term(it, v):
+    import awesomeversion
+
+    if isinstance(v, AwVer):
+        return v.term
+    if isinstance(v, awesomeversion.AwesomeVersion):
+        return z3.StringVal(str(v))
+    raise Unsupported("AwesomeVersion compared with a non-version")
+
+
+def _aw_literal_facts(it, t):
+    """Facts about a literal version string, computed with the real library."""
+    import awesomeversion
+
+    if not z3.is_string_value(t):
+        return None
+    s = t.as_string()
+    lb = lawbook(it.ctx)
+    if not lb._once("awlit", t):
+        return s
+    a = awesomeversion.AwesomeVersion(s)
+    it.ctx.add_fact(aw_string(t) == z3.StringVal(a.string))
+    it.ctx.add_fact(aw_known(t) == z3.BoolVal(a.strategy != awesomeversion.AwesomeVersionStrategy.UNKNOWN))
+    import re
+
+    simple = re.fullmatch(r"\d+(\.\d+){0,2}", s) is not None
+    it.ctx.add_fact(aw_simple3(t) == z3.BoolVal(simple))
+    if simple:
+        for i in range(3):
+            it.ctx.add_fact(aw_sec(t, i) == a.section(i))
+    return s
+
+
+def _aw_pair_law(it, a, b):
+    """Numeric comparison, section by section, for simple versions with at most 3 sections."""
+    lb = lawbook(it.ctx)
+    if not lb._once("awpair", a, b):
+        return
+    a0, a1, a2 = (aw_sec(a, i) for i in range(3))
+    b0, b1, b2 = (aw_sec(b, i) for i in range(3))
+    lexgt = z3.Or(a0 > b0, z3.And(a0 == b0, z3.Or(a1 > b1, z3.And(a1 == b1, a2 > b2))))
+    both = z3.And(aw_simple3(a), aw_simple3(b))
+    it.ctx.add_fact(z3.Implies(both, aw_gt(a, b) == lexgt))
+    for x in (a, b):
+        if lb._once("awsimple", x):
+            it.ctx.add_fact(z3.Implies(aw_simple3(x), z3.And(aw_known(x), aw_string(x) == x, aw_sec(x, 0) >= 0, aw_sec(x, 1) >= 0, aw_sec(x, 2) >= 0)))
+
+
+def aw_compare(it, op, a, b, node=None):
+    import awesomeversion
+
+    ta, tb = _aw_term(it, a), _aw_term(it, b)
+    _aw_literal_facts(it, ta)
+    _aw_literal_facts(it, tb)
+    _aw_pair_law(it, ta, tb)
+    _aw_pair_law(it, tb, ta)
+    same = aw_string(ta) == aw_string(tb)
+
+    def strict(x, y):  # x > y
+        if it.branch(same, node):
+            return False
+        if not it.branch(z3.And(aw_known(ta), aw_known(tb)), node):
+            raise PyRaise(ExcVal(awesomeversion.AwesomeVersionCompareException, ("Can't compare",), site=it.site(node)))
+        return ops.mk("bool", aw_gt(x, y))
+
+    if op == "Gt":
+        return strict(ta, tb)
+    if op == "Lt":
+        return strict(tb, ta)
+    if op == "GtE":
+        if it.branch(same, node):
+            return True
+        return strict(ta, tb)
+    if op == "LtE":
+        if it.branch(same, node):
+            return True
+        return strict(tb, ta)
+    raise Unsupported(f"AwesomeVersion {op}")
+
+
+def m_awesomeversion(it, a, k):
+    import awesomeversion
+
+    if ops.all_concrete(a) and ops.all_concrete(list(k.values())):
+        return it.raw_native(awesomeversion.AwesomeVersion, a, k)
+    if k:
+        raise Unsupported("AwesomeVersion keyword arguments on symbolic value")
+    v = ops.to_str(it, a[0])
+    kind, t = lift(v)
+    st = lawbook(it.ctx).strip(t)
+    # a trailing "." is dropped by the constructor; the version laws speak about simple numeric
+    # versions only, which have none
+    return AwVer(st)
+
+
+def install_aw(it):
+    import awesomeversion
+
+    it.models[id(awesomeversion.AwesomeVersion)] = ModelFn("AwesomeVersion", m_awesomeversion)
+    it.aw_compare = aw_compare
+    it.AwVer = AwVer
+
+
+# =========================================================================== voluptuous (T-vol)
+def _invalid(it, msg="invalid"):
+    import voluptuous as vol
+
+    raise PyRaise(ExcVal(vol.Invalid, (msg,), site="voluptuous"))
+
+
+class FloatVal:
+    _pyvc_symbolic = True
+    """float(s) of a symbolic string: value / nan / inf flags are uninterpreted functions of s."""
+
+    def __init__(self, src):
+        self.src = src
+
+
+def vol_apply(it, v, x):
+    """Apply the voluptuous validator object `v` to value `x` (returns the validated value)."""
+    import voluptuous as vol
+    from .laws import py_float, py_float_inf, py_float_nan, py_float_ok
+
+    if isinstance(v, vol.Schema):
+        return vol_apply(it, v.schema, x)
+    if isinstance(v, vol.Object):
+        return _vol_object(it, v, x)
+    if isinstance(v, vol.All):
+        for sub in v.validators:
+            x = vol_apply(it, sub, x)
+        return x
+    if isinstance(v, vol.Any):
+        for sub in v.validators:
+            try:
+                return vol_apply(it, sub, x)
+            except PyRaise as pr:
+                if not issubclass(pr.exc.cls, vol.Invalid):
+                    raise
+        _invalid(it, "no valid value found")
+    if isinstance(v, vol.Coerce):
+        if v.type is int:
+            try:
+                return ops.to_int(it, x)
+            except PyRaise as pr:
+                if issubclass(pr.exc.cls, (ValueError, TypeError)):
+                    _invalid(it, "expected int")
+                raise
+        if v.type is str:
+            if isinstance(x, FloatVal):
+                return ops.opaque_str(it, "strfloat")
+            return ops.to_str(it, x)
+        if v.type is float:
+            x = ops.specialize(it, x)
+            if isinstance(x, SV) and x.kind == "str":
+                if not it.branch(py_float_ok(x.term)):
+                    _invalid(it, "expected float")
+                return FloatVal(x.term)
+            if isinstance(x, SV) and x.kind == "int":
+                return SV("real", z3.ToReal(x.term))
+            if x is None or isinstance(x, FloatVal):
+                if x is None:
+                    _invalid(it, "expected float")
+                return x
+            try:
+                return float(x)
+            except (ValueError, TypeError):
+                _invalid(it, "expected float")
+        raise Unsupported(f"Coerce({v.type})")
+    if isinstance(v, vol.Range):
+        if not (v.min_included and v.max_included):
+            raise Unsupported("exclusive Range")
+        if isinstance(x, FloatVal):
+            s = x.src
+            nan, inf, val = py_float_nan(s), py_float_inf(s), py_float(s)
+            conds = [z3.Not(nan)]
+            if v.min is not None:
+                conds.append(z3.Or(inf == 1, z3.And(inf == 0, val >= z3.RealVal(repr(float(v.min))))))
+            if v.max is not None:
+                conds.append(z3.Or(inf == -1, z3.And(inf == 0, val <= z3.RealVal(repr(float(v.max))))))
+            if not it.branch(z3.And(conds)):
+                _invalid(it, "value out of range")
+            return x
+        x2 = ops.specialize(it, x)
+        if x2 is None or isinstance(x2, (str,)) or (isinstance(x2, SV) and x2.kind == "str"):
+            _invalid(it, "invalid value or type (must have a partial ordering)")
+        kind, t = lift(x2)
+        if kind == "bool":
+            t = z3.If(t, 1, 0)
+            kind = "int"
+        conds = []
+        if kind == "int":
+            if v.min is not None:
+                conds.append(t >= int(v.min) if float(v.min).is_integer() else z3.ToReal(t) >= z3.RealVal(repr(v.min)))
+            if v.max is not None:
+                conds.append(t <= int(v.max) if float(v.max).is_integer() else z3.ToReal(t) <= z3.RealVal(repr(v.max)))
+        elif kind == "real":
+            if v.min is not None:
+                conds.append(t >= z3.RealVal(repr(float(v.min))))
+            if v.max is not None:
+                conds.append(t <= z3.RealVal(repr(float(v.max))))
+        else:
+            raise Unsupported(f"Range on kind {kind}")
+        if not it.branch(z3.And(conds) if conds else True):
+            _invalid(it, "value out of range")
+        return x2
+    if isinstance(v, vol.In):
+        try:
+            c = ops.contains(it, list(v.container), x)
+        except PyRaise:
+            _invalid(it, "value is not allowed")
+        if not it.branch(c):
+            _invalid(it, "value is not allowed")
+        return x
+    if v is str:
+        x2 = ops.specialize(it, x)
+        if isinstance(x2, str) or (isinstance(x2, SV) and x2.kind == "str"):
+            return x2
+        _invalid(it, "expected str")
+    if v is int:
+        x2 = ops.specialize(it, x)
+        if isinstance(x2, int) or (isinstance(x2, SV) and x2.kind in ("int", "bool")):
+            return x2
+        _invalid(it, "expected int")
+    if v is None:
+        if x is None:
+            return x
+        _invalid(it, "expected None")
+    if isinstance(v, (str, int)) and not isinstance(v, bool):
+        e = ops.eq_term(it, x, v)
+        if not it.branch(e):
+            _invalid(it, "not a valid value")
+        return x
+    import types as _t
+
+    if isinstance(v, (_t.FunctionType,)):
+        try:
+            return it.call(v, [x], {})
+        except PyRaise as pr:
+            if issubclass(pr.exc.cls, vol.Invalid):
+                raise
+            if issubclass(pr.exc.cls, ValueError):
+                _invalid(it, "not a valid value")
+            raise
+    if isinstance(v, dict):
+        return _vol_mapping(it, v, x)
+    raise Unsupported(f"voluptuous node {type(v).__name__}")
+
+
+def _vol_object(it, v, x):
+    import voluptuous as vol
+    from .values import Obj
+
+    if v.cls is not vol.UNDEFINED:
+        if not (isinstance(x, Obj) and issubclass(x.pycls, v.cls)):
+            _invalid(it, "expected object of class")
+    if not isinstance(x, Obj):
+        raise Unsupported("Object schema on non-object")
+    out = {}
+    errors = False
+    first_exc = None
+    for name, val in list(x.fields.items()):
+        if val is None:
+            continue
+        if name not in v:
+            errors = True
+            first_exc = first_exc or ExcVal(vol.Invalid, ("extra keys not allowed",), site="voluptuous")
+            continue
+        try:
+            out[name] = vol_apply(it, v[name], val)
+        except PyRaise as pr:
+            if issubclass(pr.exc.cls, vol.Invalid):
+                errors = True
+                first_exc = first_exc or pr.exc
+                continue
+            raise
+    for key in v:
+        if isinstance(key, vol.Required) and key.schema not in out:
+            errors = True
+    if errors:
+        raise PyRaise(ExcVal(vol.MultipleInvalid, ("invalid object",), site=(first_exc.site if first_exc else "voluptuous")))
+    return it.call(x.pycls, [], out)
+
+
+def _vol_mapping(it, schema, x):
+    raise Unsupported("voluptuous mapping schema on symbolic data")
+
+
+def vol_ctor(cls):
+    """Constructors of voluptuous nodes: `msg=` only affects error text; symbolic text is dropped."""
+
+    def fn(it, a, k):
+        k2 = dict(k)
+        if "msg" in k2 and not ops.all_concrete([k2["msg"]]):
+            k2["msg"] = "<symbolic text>"
+        a2 = list(a)
+        return it.raw_native(cls, a2, k2)
+
+    return fn
+
+
+def install_vol(it):
+    import voluptuous as vol
+
+    for cls in (vol.All, vol.Any, vol.Coerce, vol.Range, vol.In, vol.Schema, vol.Object):
+        it.models[id(cls)] = ModelFn(f"vol.{cls.__name__}", vol_ctor(cls))
+        it.type_models[cls] = lambda it2, obj, a, k: vol_apply(it2, obj, a[0])
+    it.type_models[vol.validators.All] = lambda it2, obj, a, k: vol_apply(it2, obj, a[0])
+
+
+# =========================================================================== spec primitives
+def install_spec_prims(it):
+    try:
+        from spec import prims
+    except Exception:  # pylint: disable=broad-except
+        return
+    from .laws import py_float, py_float_inf, py_float_nan, py_float_ok, py_int, py_int_ok, py_unhex_ok
+
+    def sym1(f_native, f_sym):
+        def fn(it2, a, k):
+            if ops.all_concrete(a):
+                return f_native(*a)
+            return f_sym(it2, *a)
+
+        return fn
+
+    def s_int_ok(it2, s):
+        s = ops.specialize(it2, s)
+        kind, t = lift(s)
+        if kind == "int":
+            return True
+        if kind != "str":
+            return False
+        lawbook(it2.ctx).int_literal_facts(t)
+        return ops.mk("bool", py_int_ok(t))
+
+    def s_int_of(it2, s):
+        kind, t = lift(s)
+        if kind == "int":
+            return s
+        return ops.mk("int", py_int(t))
+
+    def s_float_ok(it2, s):
+        kind, t = lift(s)
+        return ops.mk("bool", py_float_ok(t))
+
+    def s_float_in(it2, s, lo, hi):
+        kind, t = lift(s)
+        nan, inf, val = py_float_nan(t), py_float_inf(t), py_float(t)
+        return ops.mk(
+            "bool",
+            z3.And(
+                py_float_ok(t),
+                z3.Not(nan),
+                z3.Or(inf == 1, z3.And(inf == 0, val >= z3.RealVal(repr(float(lo))))),
+                z3.Or(inf == -1, z3.And(inf == 0, val <= z3.RealVal(repr(float(hi))))),
+            ),
+        )
+
+    def s_is_hex(it2, s, n):
+        kind, t = lift(s)
+        return ops.mk("bool", z3.And(z3.Length(t) == n, py_unhex_ok(t)))
+
+    def s_version(it2, s):
+        kind, t = lift(s)
+        return ops.mk("bool", version_ge_14_term(it2, t))
+
+    def s_comma(it2, s):
+        return it2.call(it2.getattr(s, "split"), [","], {})
+
+    it.models[id(prims.int_ok)] = ModelFn("int_ok", sym1(prims.int_ok, s_int_ok))
+    it.models[id(prims.int_of)] = ModelFn("int_of", sym1(prims.int_of, s_int_of))
+    it.models[id(prims.float_ok)] = ModelFn("float_ok", sym1(prims.float_ok, s_float_ok))
+    it.models[id(prims.float_in)] = ModelFn("float_in", sym1(prims.float_in, s_float_in))
+    it.models[id(prims.is_hex)] = ModelFn("is_hex", sym1(prims.is_hex, s_is_hex))
+    it.models[id(prims.version_ge_14)] = ModelFn("version_ge_14", sym1(prims.version_ge_14, s_version))
+    it.models[id(prims.comma_parts)] = ModelFn("comma_parts", sym1(prims.comma_parts, s_comma))
+
+
+py_version_ge14 = z3.Function("py_version_ge14", STR, BOOL)
+
+
+def version_ge_14_term(it, t):
+    """'s is a usable version >= 1.4' in terms of the AwesomeVersion abstraction:
+    is_version(s) succeeds  <=>  not (AwesomeVersion("1.4") > AwesomeVersion(str(s).strip())) and no exception."""
+    st = lawbook(it.ctx).strip(t)
+    ref = z3.StringVal("1.4")
+    _aw_literal_facts(it, ref)
+    _aw_literal_facts(it, st)
+    _aw_pair_law(it, ref, st)
+    _aw_pair_law(it, st, ref)
+    same = aw_string(ref) == aw_string(st)
+    return z3.Or(same, z3.And(aw_known(ref), aw_known(st), z3.Not(aw_gt(ref, st))))
